@@ -190,7 +190,7 @@ func (e *env) judge(sc *scene, c cfg, tag string) outcome {
 			what = "reported but not in the model result: " + extra[0]
 		} else {
 			a := expected[missing[0]]
-			cause := explainMissing(c, a, ioMap, sc.Src, t)
+			cause := explainMissing(c, a, ioMap, sc.Src, t, out.ObsSet)
 			sig = sc.Kind + "/union-minus/missing/" + cause
 			what = "in the model result but not reported: " + missing[0]
 		}
@@ -264,7 +264,7 @@ func (e *env) judge(sc *scene, c cfg, tag string) outcome {
 }
 
 // explainMissing names the structural reason why an annotation the model keeps may have been dropped.
-func explainMissing(c cfg, a bufx.Annotation, ioMap map[string][]string, src *source, t *tables) string {
+func explainMissing(c cfg, a bufx.Annotation, ioMap map[string][]string, src *source, t *tables, observed map[string]bufx.Annotation) string {
 	// path-based explanations first: they are tied to the configuration, not to the image
 	wp := c.workspacePath(a.Path)
 	for rule, paths := range ioMap {
@@ -288,6 +288,9 @@ func explainMissing(c cfg, a bufx.Annotation, ioMap map[string][]string, src *so
 		if elem, ok := src.element(a.Path, a.StartLine); ok {
 			// most specific first: a comment that names this rule, then prefix-related IDs, then anything in scope
 			for pass := 0; pass < 3; pass++ {
+				if pass == 2 && ruleSilent(c, a, t, observed) != "" {
+					break
+				}
 				for _, cm := range src.Comments {
 					rel := src.relation(elem, cm.Name)
 					inScope := rel == "own" || rel == "ancestor"
@@ -313,10 +316,31 @@ func explainMissing(c cfg, a bufx.Annotation, ioMap map[string][]string, src *so
 			}
 		}
 	}
+	if why := ruleSilent(c, a, t, observed); why != "" {
+		return why
+	}
 	if src.Imports[a.Path] {
 		return "import-file-dropped-without-exclude-imports"
 	}
 	return "unexplained/" + t.classify(a.Type)
+}
+
+// ruleSilent: the rule of the missing annotation reported nothing at all, i.e. it probably did not run.
+func ruleSilent(c cfg, a bufx.Annotation, t *tables, observed map[string]bufx.Annotation) string {
+	for _, o := range observed {
+		if o.Type == a.Type {
+			return ""
+		}
+	}
+	if len(c.Use) == 0 {
+		return "selected-rule-silent/default-rule"
+	}
+	for _, u := range c.Use {
+		if s, ok := t.expand(u); ok && s[a.Type] {
+			return "selected-rule-silent/use=" + t.classify(u)
+		}
+	}
+	return "selected-rule-silent"
 }
 
 // monotone checks, on observed results only: adding a suppression never adds an annotation and removes
